@@ -188,6 +188,16 @@ pub fn input_for(prop: &str, tier: Tier, seed: u64, idx: u64, sub: u64) -> (Stri
             if rng.chance(0.45) {
                 return ("pool-file".into(), gtext::pool_file(&mut rng));
             }
+            if rng.chance(0.2) {
+                // several simultaneous violations of one kind
+                let (_, cfg, force) = crate::gen::grammar_for_case(&mut rng, u64::MAX);
+                let mut m = crate::model::model_from_cfg(&cfg, &force);
+                crate::model::assign_random_shapes(&mut m, &mut rng, 0.5);
+                if let Ok(mut items) = rkiki::reference_ast(&m.render()) {
+                    let tag = gtext::inject_many(&mut items, &mut rng);
+                    return (format!("multi+{tag}"), gtext::render_items(&items));
+                }
+            }
             // a valid model with 0-3 injected violations
             let (_, cfg, force) = crate::gen::grammar_for_case(&mut rng, u64::MAX);
             let mut m = crate::model::model_from_cfg(&cfg, &force);
